@@ -4,6 +4,7 @@ import (
 	"fmt"
 	"go/token"
 	"go/types"
+	"math/big"
 	"sort"
 	"strings"
 
@@ -247,6 +248,90 @@ func (vc *VC) assume(guard *Term, f *Term) {
 		return
 	}
 	vc.facts = append(vc.facts, Implies(guard, f))
+	vc.expandBounded(guard, f)
+}
+
+// expandBounded: a universally quantified hypothesis over one variable whose range is bounded by two literals
+// (forall k :: lo <= k && k < hi ==> P(k), at most 64 values) is also assumed instance by instance, so that it is
+// usable without quantifier instantiation (e.g. the per-bit postcondition of ReadBits at a call with a literal width).
+func (vc *VC) expandBounded(guard, f *Term) {
+	var rec func(t *Term, wrap func(*Term) *Term, depth int)
+	rec = func(t *Term, wrap func(*Term) *Term, depth int) {
+		if depth > 6 {
+			return
+		}
+		switch {
+		case t.Op == "and":
+			for _, a := range t.Args {
+				rec(a, wrap, depth+1)
+			}
+		case t.Op == "=>" && len(t.Args) == 2:
+			ante := t.Args[0]
+			rec(t.Args[1], func(x *Term) *Term { return wrap(Implies(ante, x)) }, depth+1)
+		case t.Op == "forall" && len(t.Bound) == 1 && len(t.Args) == 1:
+			k := t.Bound[0]
+			body := t.Args[0]
+			if body.Op != "=>" || len(body.Args) != 2 {
+				return
+			}
+			var conj []*Term
+			if body.Args[0].Op == "and" {
+				conj = body.Args[0].Args
+			} else {
+				conj = []*Term{body.Args[0]}
+			}
+			var lo, hi *int64
+			isK := func(x *Term) bool { return len(x.Args) == 0 && x.Op == k.Op }
+			for _, c := range conj {
+				if len(c.Args) != 2 {
+					continue
+				}
+				a, b := c.Args[0], c.Args[1]
+				switch c.Op {
+				case "<=", "bvsle", "bvule":
+					if v, ok := litIdx(a); ok && isK(b) {
+						x := v
+						lo = &x
+					} else if v, ok := litIdx(b); ok && isK(a) {
+						x := v + 1
+						hi = &x
+					}
+				case "<", "bvslt", "bvult":
+					if v, ok := litIdx(b); ok && isK(a) {
+						x := v
+						hi = &x
+					} else if v, ok := litIdx(a); ok && isK(b) {
+						x := v + 1
+						lo = &x
+					}
+				case ">=", "bvsge", "bvuge":
+					if v, ok := litIdx(b); ok && isK(a) {
+						x := v
+						lo = &x
+					}
+				case ">", "bvsgt", "bvugt":
+					if v, ok := litIdx(a); ok && isK(b) {
+						x := v
+						hi = &x
+					}
+				}
+			}
+			if lo == nil || hi == nil || *hi-*lo > 64 || *hi <= *lo {
+				return
+			}
+			for v := *lo; v < *hi; v++ {
+				var lit *Term
+				if k.S.K == KBV {
+					lit = BVLit(big.NewInt(v), k.S.W)
+				} else {
+					lit = IntLit64(v)
+				}
+				inst := body.subst(map[string]*Term{k.Op: lit})
+				vc.facts = append(vc.facts, Implies(guard, wrap(inst)))
+			}
+		}
+	}
+	rec(f, func(x *Term) *Term { return x }, 0)
 }
 
 func (vc *VC) oblige(kind string, st *State, cond *Term, pos token.Pos, desc string) *Obl {
